@@ -394,8 +394,9 @@ def r9_4(ctx):
     else:
         sb, op, (tt, tf) = gate
         ne = tt if op == "Ne" else tf
-        ctx.check(all(bb in e.reachable(ne) and bb not in e.reachable(0, removed_edges=[(sb, ne)]) for bb, si in somes), "exit-code-gate", e.loc(sb),
-                  "an exit-code line is written exactly when the code is not 0 (the reader defaults a missing line to 0)")
+        nones = [bb for bb, si, rv in aggregates(e, "Option", "None")]
+        ctx.check(any(bb in e.reachable(ne) for bb, si in somes) and not any(bb in e.reachable(ne, removed_edges=e.back_edges()) for bb in nones), "exit-code-gate", e.loc(sb),
+                  "an exit-code line is always written when the code is not 0 (the reader defaults a missing line to 0)")
     forms = ["".join(p if isinstance(p, str) else "{}" for p in ps) for bb, ps in _fmt_literals(e)]
     ctx.check("[{}]\n" in forms and all(x in ("[{}]\n", "[{}]") for x in forms), "exit-code-form", e.where(), "the exit code is written as `[<code>]` on its own line", "exit code forms: %s" % forms)
     # the reader's pattern accepts that form
@@ -543,9 +544,46 @@ def r9_5(ctx):
     c11.r11_5(ctx)
 
 
-def _nonzero_edge(f, o, bb):
-    """is block bb reached only on the non-zero edge of a test of an integer against 0 (`x != 0`, `x == 0` negated, or a switch over x with a 0 arm)?
-    -> description or None"""
+def _written_zero_edges(prog, f, o):
+    """edges taken only where the test itself spells out an exit code: the true edge of a test of the field testcase.exit_code (`== Some(0)`, `== Some(code)`,
+    `.is_some()`), or the Some edge of a match over it. Where the actual code is the expected one (the Ok and the MalformedOutput arm) a zero written on such
+    an edge is the zero the document already contains. -> [(switch block, target)]"""
+    from ..cfgq import promoted_tree
+    out = []
+    for sb, st in switches(f):
+        be = bool_edges(f, sb)
+        if be is not None:
+            tree = cond_tree(f, sb, o)
+            neg = False
+            while tree.kind == "un" and tree.a == "Not":
+                neg, tree = not neg, tree.kids[0]
+            if tree.kind != "call":
+                continue
+            m = method_name(tree.a)
+            if m not in ("PartialEq::eq", "PartialEq::ne", "Option::is_some", "Option::is_none"):
+                continue
+            if not any(x.kind == "field" and x.a == "exit_code" and "testcase" in x.show() for x in tree.walk()):
+                continue
+            if m in ("PartialEq::ne", "Option::is_none"):
+                neg = not neg
+            out.append((sb, be[1] if neg else be[0]))
+            continue
+        ve, rvv = variant_edges(f, sb)
+        if ve is not None and "Some" in ve and rvv is not None:
+            src = o.operand(rvv) if isinstance(rvv, dict) else rvv
+            try:
+                shown = peel(src).show()
+            except Exception:
+                shown = ""
+            if "testcase" in shown and "exit_code" in shown:
+                out.append((sb, ve["Some"]))
+    return out
+
+
+def _nonzero_edge(f, o, bb, prog=None):
+    """is block bb reached only on the non-zero edge of a test of an integer against 0 (`x != 0`, `x == 0` negated, or a switch over x with a 0 arm) - or,
+    with prog given, else only where the test spells out an exit code itself (_written_zero_edges)? -> description or None"""
+    extra = _written_zero_edges(prog, f, o) if prog is not None else []
     for sb, st in switches(f):
         be = bool_edges(f, sb)
         if be is not None:
@@ -557,6 +595,8 @@ def _nonzero_edge(f, o, bb):
                 ne = be[0] if ((tree.a == "Ne") != neg) else be[1]
                 if bb in f.reachable(ne) and bb not in f.reachable(0, removed_edges=[(sb, ne)]):
                     return "%s(.., 0)" % tree.a
+                if extra and bb not in f.reachable(0, removed_edges=[(sb, ne)] + extra):
+                    return "%s(.., 0), or the zero the test spells out itself" % tree.a
             continue
         t = f.blocks[sb]["term"]
         pl = t["discr"].get("move") or t["discr"].get("copy")
@@ -565,18 +605,38 @@ def _nonzero_edge(f, o, bb):
             other = t.get("otherwise")
             if zero and other is not None and bb in f.reachable(other) and bb not in f.reachable(0, removed_edges=[(sb, other)]):
                 return "switch(.. 0 => skip)"
+            if extra and zero and other is not None and bb not in f.reachable(0, removed_edges=[(sb, other)] + extra):
+                return "switch(.. 0 => skip), or the zero the test spells out itself"
     return None
 
 
-def r9_10(ctx):
-    """sibling agreement inside the test generator: (a) every path that writes an exit code line `[n]` does so only for n != 0 - the Ok and the
-    MalformedOutput paths go through generate_testcase_exit_code, the InvalidExitCode path writes the line itself; a `[0]` written there is removed
-    again by the next update (not idempotent); (b) the stream whose text becomes the expectations of a test that failed on its exit code is the
-    stream validation compares them with: output.stderr exactly on output_stream == Some(Stderr) (C05 R5.3's selection)"""
+def r9_10(ctx, keep_written_zero=False):
+    """inside the test generator: (a, C10 only) where the exit code was the expected one - the Ok and the MalformedOutput arm, both through
+    generate_testcase_exit_code - an `[n]` line is written for n != 0 or for the zero the test spells out itself, and that spelled-out zero is written
+    (F55): the lines of a test that passed on its exit code stay as they are. The InvalidExitCode arm replaces a failed exit code expectation; whether it
+    writes a zero (F30 left it out) is free, since the next update keeps a written `[0]`; (b) the stream whose text becomes the expectations of a test
+    that failed on its exit code is the stream validation compares them with: output.stderr exactly on output_stream == Some(Stderr) (C05 R5.3's selection)"""
     prog = ctx.prog
     g = prog.impl_fn("Outcome", "OutcomeTestGenerator", "generate_testcase")
     bodies = [g, prog.fn("Outcome::generate_testcase_exit_code")]
+    back = g.back_edges()
+    arms = {}
+    for sb, st in switches(g):
+        ve, rvv = variant_edges(g, sb)
+        if ve is None:
+            continue
+        for v_ in ("Ok", "MalformedOutput", "InvalidExitCode"):
+            if v_ in ve and v_ not in arms:
+                only = set(g.reachable(ve[v_], removed_edges=back))
+                for v2, tg2 in ve.items():
+                    if v2 != v_:
+                        only -= set(g.reachable(tg2, removed_edges=back))
+                arms[v_] = only
+    for v_ in ("Ok", "MalformedOutput", "InvalidExitCode"):
+        if v_ not in arms:
+            raise AnchorError("generate_testcase: no %s arm found" % v_)
     n = 0
+    hows = []
     for f in bodies:
         o = Origins(f)
         for bb, t in f.calls():
@@ -590,13 +650,37 @@ def r9_10(ctx):
             if text not in ("[\x00]\n", "[\x00]"):
                 continue
             n += 1
-            how = _nonzero_edge(f, o, bb)
-            ctx.check(how is not None, "exit-code-line-nonzero:%s#%d" % (f.npath.split("::")[-1], n), f.loc(bb),
+            how = _nonzero_edge(f, o, bb, prog)
+            hows.append((f, bb, how))
+            key = "exit-code-line:%s#%d" % (f.npath.split("::")[-1], n)
+            if f is g and bb in arms["InvalidExitCode"]:
+                ctx.ok(key, f.loc(bb), "this `[n]` line replaces an exit code expectation that failed (InvalidExitCode arm); %s" %
+                       ("written on the non-zero edge only (%s)" % how if how else "a zero is written out too and kept by the next update"))
+                continue
+            if not keep_written_zero:
+                ctx.ok(key, f.loc(bb), "`[n]` line of a test whose exit code was the expected one (%s)" % (how or "any code"))
+                continue
+            ctx.check(how is not None, key, f.loc(bb),
                       "this `[n]` line is written on the non-zero edge only (%s)" % how,
-                      "this `[n]` line is written for every exit code, also 0: the other paths leave a zero code out, so once the test passes the next update removes the "
-                      "`[0]` line again - updating an already updated document changes it")
+                      "this `[n]` line is written for every exit code, also a 0 that the test does not spell out: a test that passed on its exit code gets a `[0]` line "
+                      "it did not have - the lines of a passing test change")
     if n < 2:
         ctx.bad("exit-code-sites", g.where(), "only %d `[n]` writes found in the test generator (2 confirmed by reading: generate_testcase_exit_code and the InvalidExitCode arm)" % n)
+    # (a') a test that spells out `[0]` keeps that line where its exit code was the expected one (the Ok and the MalformedOutput arm): C10 - update rewrites
+    # only what failed; without it `update` reports a passing document as updated and removes the line
+    keeping = {(id(f_), bb_) for f_, bb_, how_ in hows if how_ and "spells out" in how_}
+    keeping_bodies = {id(f_) for f_, bb_, how_ in hows if how_ and "spells out" in how_}
+    for v_ in (("Ok", "MalformedOutput") if keep_written_zero else ()):
+        kept = any((id(g), bb_) in keeping for bb_ in arms[v_])
+        for bb_, t_ in g.calls():
+            if bb_ in arms[v_]:
+                cb = next((f_ for f_ in bodies if f_ is not g and callee_name(t_) and callee_name(t_).split("::")[-1] == f_.npath.split("::")[-1]), None)
+                if cb is not None and id(cb) in keeping_bodies:
+                    kept = True
+        ctx.check(kept, "written-zero-kept:%s" % v_, g.where(),
+                  "the %s arm writes the exit code line also for a zero that the test spells out itself" % v_,
+                  "the %s arm never writes `[0]`: a test that passes on its exit code and spells out `[0]` loses that line on update - a passing document is "
+                  "reported as updated and changed" % v_)
     # (b') validation returns InvalidExitCode *before* it diffs the output: in that arm nothing is known about the old expectations, they must not be written back
     for sb, st in switches(g):
         ve, rvv = variant_edges(g, sb)
@@ -704,4 +788,4 @@ def run(ctx):
     from . import c06 as _c06
     ctx.run_rule("R9.9", "writer/reader fence agreement: the parser closes a block on a column-0 prefix test against the opening fence - what the writer's max_backtick_size measures (shared with C06 R6.9) [E-TABLE]", _c06.r6_9, floor=3)
     ctx.run_rule("R9.4", "writer/reader tables: `$ `/`> ` prefixes, exit-code line iff code != 0, `[n]` form accepted by the reader's pattern [E-TABLE]", r9_4, floor=6)
-    ctx.run_rule("R9.10", "generator siblings agree: every `[n]` line is written for n != 0 only (also in the InvalidExitCode arm); that arm regenerates the expectations from the stream validation compares them with (F30, F32) [E-PATH, E-FLOW]", r9_10, floor=3)
+    ctx.run_rule("R9.10", "the test generator's `[n]` sites are recorded per arm; the InvalidExitCode arm regenerates the expectations from the stream validation compares them with and writes none of the old ones back (F32) [E-PATH, E-FLOW]", r9_10, floor=3)
